@@ -1108,6 +1108,17 @@ pub fn run_state_case(spec: &Spec, out: &mut dyn Write) -> GeomOut {
             }
         }
     }
+    // ---------------- C08: the state a group and a shape start from (no injected parameters, no optimisation) is valid:
+    // its score is defined and finite
+    if !spec.kv.contains_key("len") && !spec.kv.contains_key("opt") && !spec.kv.contains_key("family") && !multi
+        && !matches!(items, Items::Ljs(_)) && sarea.is_finite() && sarea > 0. {
+        match score {
+            Some(v) if v.is_finite() && v > 0. => {}
+            other => add(&mut f, "C08", format!(
+                "the state {} starts from for shape {} has score {:?}: not a valid state (cell a={:?} b={:?} angle={:?}, enclosing_radius() = {:?}, reach of the shape {:?})",
+                group, spec.get("shape"), other, a, b, angle, impl_radius, orad)),
+        }
+    }
     // ---------------- C02 / C11: the score is a function of the state as serialised, whatever was scored before
     if let Some((a, b)) = st.reshape_then_score() {
         let same = match (a, b) {
@@ -1459,12 +1470,24 @@ pub fn run_state_case(spec: &Spec, out: &mut dyn Write) -> GeomOut {
     // are between 2 x (its radius) and 2 x (the reach) apart are never compared: such states are built here (two copies of
     // the p2 group in a large cell, at every mutual orientation) and put through the monitors above.
     if !spec.kv.contains_key("probe") && !matches!(items, Items::Ljs(_)) && orad.is_finite() && impl_radius.is_finite()
-        && impl_radius > 0. && orad > impl_radius * (1. + 1e-9) && !f.iter().any(|x| x.property.contains("C01")) {
+        && impl_radius > 0. && orad > impl_radius * (1. + 1e-9) {
         let mut seed: u64 = spec.text.bytes().fold(0xcbf29ce484222325u64, |h, b| (h ^ b as u64).wrapping_mul(0x100000001b3));
         let mut rnd = || {
             seed = seed.wrapping_mul(6364136223846793005).wrapping_add(1442695040888963407);
             ((seed >> 11) as f64) / ((1u64 << 53) as f64)
         };
+        // (C08) the states the seven groups start from with this shape: the starting cell is sized from that radius
+        for g7 in ["p1", "p2", "p1m1", "p1g1", "p2mm", "p2mg", "p2gg"].iter() {
+            let text = format!("geom id={}-init-{} probe=1 kind=hard group={} shape={}", spec.get_or("id", "case"), g7, g7, spec.get("shape"));
+            let mut sink: Vec<u8> = vec![];
+            if let Ok(o) = catch_unwind(AssertUnwindSafe(|| run_state_case(&Spec::parse(&text), &mut sink))) {
+                if let Some(x) = o.findings.into_iter().find(|x| x.property.contains("C08")) {
+                    add(&mut f, "C08", format!("{} [found by the directed search started because enclosing_radius() = {:?} is less than the reach {:?} of the shape; state: {}]",
+                                               x.what, impl_radius, orad, text));
+                    break;
+                }
+            }
+        }
         let len = 20. * orad;
         'probe: for t in 0..600 {
             let d = 2. * impl_radius + 2. * (orad - impl_radius) * (0.02 + 0.96 * rnd());
@@ -1479,7 +1502,7 @@ pub fn run_state_case(spec: &Spec, out: &mut dyn Write) -> GeomOut {
                 Err(_) => continue,
             };
             for x in o.findings.into_iter() {
-                if x.property.contains("C01") {
+                if x.property.contains("C01") && !f.iter().any(|y| y.property == "C01") {
                     add(&mut f, "C01", format!(
                         "{} [found by the directed search started because enclosing_radius() = {:?} is less than the reach {:?} of the shape; state: {}]",
                         x.what, impl_radius, orad, text));
